@@ -3,7 +3,7 @@
    result with what the implementation returned for the same inputs. No proofs here. *)
 From Coq Require Import ZArith List Bool String.
 From Strand Require Import Base.ZUtil Model.Outcome Model.Codec Model.Sha512 Model.Backend
-  Model.ZBackend Model.Zkp Model.Wire Model.Rng Model.Shuffler Model.Keymaker.
+  Model.ZBackend Model.Zkp Model.Wire Model.Rng Model.Shuffler Model.Keymaker Model.Base64.
 Import ListNotations.
 Open Scope list_scope.
 Open Scope Z_scope.
@@ -62,6 +62,34 @@ Fixpoint gZs (l : list val) : option (list Z) :=
 Definition gLZ (v : val) : option (list Z) := match v with VL l => gZs l | _ => None end.
 Definition gOptZ (v : val) : option (option Z) :=
   match v with VNone => Some None | VZ z => Some (Some z) | _ => None end.
+
+(* ---------- Ed25519 wrappers + base64 (backend independent). The underlying library is an oracle: the driver passes,
+   as a table, which byte strings the library accepts, and what it returns for sign / verify. ---------- *)
+Fixpoint tbl_lookup (t : list val) (b : bytes) : bool :=
+  match t with
+  | VL [VB k; VBool v] :: r => if bytes_eqb k b then v else tbl_lookup r b
+  | _ => false
+  end.
+Definition kind_of (z : Z) : kind := if z =? 0 then KSk else if z =? 1 then KPk else KSig.
+
+Definition exec_sig (op : string) (args : list val) : option val :=
+  match args with
+  | [VB b] =>
+      if opis op "b64_encode" then Some (VB (b64_encode b)) else
+      if opis op "b64_decode" then Some (of_outB (b64_decode b)) else None
+  | [VZ k; VB s; VL t] =>
+      let v := tbl_lookup t in
+      if opis op "sig_from_string" then Some (of_outB (w_from_string v v v (kind_of k) s)) else
+      if opis op "sig_to_string" then Some (of_outB (w_to_string v v v (kind_of k) s)) else
+      if opis op "sig_deserialize" then Some (of_outB (w_deserialize v v v (kind_of k) s)) else None
+  | [VB sk; VB msg; VL t; VB raw] =>
+      let v := tbl_lookup t in
+      if opis op "sig_sign" then Some (of_outB (w_sign v v v (fun _ _ => raw) sk msg)) else None
+  | [VB pk; VB sg; VB msg; VL t; VBool raw] =>
+      let v := tbl_lookup t in
+      if opis op "sig_verify" then Some (omap VBool (w_verify v v v (fun _ _ _ => raw) pk sg msg)) else None
+  | _ => None
+  end.
 
 Section Exec.
   Variable K : Kernel.
